@@ -44,6 +44,12 @@ pub fn outsider_core() -> CryptoCore {
     core_with(&aead::AES_256_GCM, &[0x44; 32], false, 0)
 }
 
+pub fn sending_slot(core: &CryptoCore) -> usize {
+    core.current_key
+}
+pub fn slot_key_bytes(core: &CryptoCore, slot: usize) -> [u8; 32] {
+    *core.keys[slot].key.model_key_bytes()
+}
 pub fn half_of(core: &CryptoCore) -> bool {
     core.nonce_half
 }
